@@ -186,7 +186,7 @@ Proof. induction gs as [|[x g] gs IH]; simpl; [reflexivity|]. f_equal. exact IH.
 Lemma pre_chans_map : forall gs : list (string * string), pre_chans (map (fun g => PreGet (fst g) (snd g)) gs) = [].
 Proof. induction gs; simpl; auto. Qed.
 
-Lemma gen_ok_inv : forall ret ps o, gen true ret ps = Ok o ->
+Lemma gen_ok_inv : forall ret ps o, gen_inter true ret ps = Ok o ->
   exists kept vs ch gs, scan ps ret = inr (kept, vs) /\ insert vs None [] = inr (ch, gs) /\
     (vs <> [] -> check_kept kept = false) /\
     lo_params o = flat_params kept /\ lo_fields o = flat_params ps /\
@@ -195,7 +195,7 @@ Lemma gen_ok_inv : forall ret ps o, gen true ret ps = Ok o ->
     pre_gets (lo_pre o) = gs /\
     pre_chans (lo_pre o) = (if ret then [None] else match ch with Some (_, a) => [Some a] | None => [] end).
 Proof.
-  intros ret ps o H. unfold gen in H.
+  intros ret ps o H. unfold gen_inter in H.
   destruct (scan ps ret) as [|[kept vs]] eqn:S; [discriminate|].
   destruct vs as [|v vs].
   - inversion H; subst. destruct (scan_nil _ _ _ S) as [-> _].
@@ -216,7 +216,7 @@ Proof.
 Qed.
 
 (* ---- T1: inter variables vanish from the handle signature, the rest keep order and types ---- *)
-Theorem live_params : forall ret ps o, gen true ret ps = Ok o ->
+Theorem live_params_i : forall ret ps o, gen_inter true ret ps = Ok o ->
   lo_params o = flat_params (filter (fun q => negb (is_ivar q)) ps).
 Proof.
   intros ret ps o H. destruct (gen_ok_inv _ _ _ H) as (kept & vs & ch & gs & S & _ & _ & P & _).
@@ -224,7 +224,7 @@ Proof.
 Qed.
 
 (* in an accepted method, "is a candidate" coincides with the documented notion: an identifier prefixed `inter_` *)
-Theorem ivar_is_prefixed : forall ret ps o, gen true ret ps = Ok o ->
+Theorem ivar_is_prefixed_i : forall ret ps o, gen_inter true ret ps = Ok o ->
   forall q, In q ps -> is_ivar q = is_end_param q || is_getter_param q.
 Proof.
   intros ret ps o H q HI. destruct (gen_ok_inv _ _ _ H) as (kept & vs & ch & gs & S & _).
@@ -239,22 +239,22 @@ Proof.
 Qed.
 
 (* ---- T2: message fields = every parameter, flattened, in the original order (inter variables included) ---- *)
-Theorem variant_fields : forall interact ret ps o, gen interact ret ps = Ok o -> lo_fields o = flat_params ps.
+Theorem variant_fields_i : forall interact ret ps o, gen_inter interact ret ps = Ok o -> lo_fields o = flat_params ps.
 Proof.
   intros [|] ret ps o H.
   - destruct (gen_ok_inv _ _ _ H) as (kept & vs & ch & gs & _ & _ & _ & _ & F & _). exact F.
-  - unfold gen in H. destruct (check_plain ps); [discriminate|]. inversion H; reflexivity.
+  - unfold gen_inter in H. destruct (check_plain ps); [discriminate|]. inversion H; reflexivity.
 Qed.
 
 (* ---- T3: a declared end: typed channel, the field gets that end, the handle returns the opposite end over the same type ---- *)
-Theorem end_returns_opposite : forall ret ps o, gen true ret ps = Ok o ->
+Theorem end_returns_opposite_i : forall ret ps o, gen_inter true ret ps = Ok o ->
   forall k t, In (PId (end_name k), t) ps ->
     ret = false /\ exists a, oneshot_get_type t (end_type_name k) = Some a /\
       lo_ret o = Some (opp k, a) /\ lo_tail o = Some (opp k) /\ pre_chans (lo_pre o) = [Some a] /\
       In (end_name k, t) (lo_fields o) /\ ~ In (end_name k) (map fst (lo_params o)).
 Proof.
   intros ret ps o H k t HI.
-  pose proof (live_params _ _ _ H) as LP.
+  pose proof (live_params_i _ _ _ H) as LP.
   destruct (gen_ok_inv _ _ _ H) as (kept & vs & ch & gs & S & I & _ & _ & F & R & T & _ & PC).
   assert (RS : reserved (end_name k) = true) by (destruct k; reflexivity).
   assert (C : contains "inter_" (end_name k) = true) by (destruct k; reflexivity).
@@ -279,7 +279,7 @@ Proof.
 Qed.
 
 (* no end declared: signature output and tail untouched, no typed channel *)
-Theorem no_end_no_change : forall ret ps o, gen true ret ps = Ok o ->
+Theorem no_end_no_change_i : forall ret ps o, gen_inter true ret ps = Ok o ->
   (forall q, In q ps -> is_end_param q = false) -> lo_ret o = None /\ lo_tail o = None /\ pre_chans (lo_pre o) = (if ret then [None] else []).
 Proof.
   intros ret ps o H NE.
@@ -294,7 +294,7 @@ Proof.
 Qed.
 
 (* ---- T4: getters: one `let inter_x = self.inter_get_x()` per getter parameter, in declaration order ---- *)
-Theorem getters_read : forall ret ps o, gen true ret ps = Ok o -> pre_gets (lo_pre o) = getters_of ps.
+Theorem getters_read_i : forall ret ps o, gen_inter true ret ps = Ok o -> pre_gets (lo_pre o) = getters_of ps.
 Proof.
   intros ret ps o H.
   destruct (gen_ok_inv _ _ _ H) as (kept & vs & ch & gs & S & I & _ & _ & _ & _ & _ & G & _).
@@ -302,19 +302,19 @@ Proof.
 Qed.
 
 (* ---- T5: rules ---- *)
-Lemma not_ok_diag : forall r, (forall o, r <> Ok o) -> exists d, r = Diag d.
+Lemma not_ok_diag_i : forall r, (forall o, r <> Ok o) -> exists d, r = Diag d.
 Proof. intros [o|d] H; [exfalso; eapply H; reflexivity|eauto]. Qed.
 
-Theorem rule_both_ends : forall ret ps, 2 <= List.length (filter is_end_param ps) -> exists d, gen true ret ps = Diag d.
+Theorem rule_both_ends_i : forall ret ps, 2 <= List.length (filter is_end_param ps) -> exists d, gen_inter true ret ps = Diag d.
 Proof.
-  intros ret ps L. apply not_ok_diag. intros o H.
+  intros ret ps L. apply not_ok_diag_i. intros o H.
   destruct (gen_ok_inv _ _ _ H) as (kept & vs & ch & gs & S & I & _).
   destruct (scan_lists _ _ _ _ S) as [_ E]. destruct (insert_none _ _ _ _ I) as [_ [[EN _]|(e & EN & _)]]; rewrite EN in E; simpl in E; lia.
 Qed.
 
-Theorem rule_end_in_returning_method : forall ps, existsb is_end_param ps = true -> exists d, gen true true ps = Diag d.
+Theorem rule_end_in_returning_method_i : forall ps, existsb is_end_param ps = true -> exists d, gen_inter true true ps = Diag d.
 Proof.
-  intros ps EX. apply not_ok_diag. intros o H.
+  intros ps EX. apply not_ok_diag_i. intros o H.
   destruct (gen_ok_inv _ _ _ H) as (kept & vs & ch & gs & S & _).
   apply existsb_exists in EX. destruct EX as ([p t] & HI & E). unfold is_end_param in E; simpl in E.
   destruct p as [x| |l]; try discriminate.
@@ -322,18 +322,18 @@ Proof.
   destruct (scan_in _ _ _ _ S x t HI C) as [_ Q]. destruct (Q E) as [? _]. discriminate.
 Qed.
 
-Theorem rule_without_interact : forall ret ps q x, In q ps -> In x (leaves (fst q)) -> reserved x = true ->
-  gen false ret ps = Diag DNoInteract.
+Theorem rule_without_interact_i : forall ret ps q x, In q ps -> In x (leaves (fst q)) -> reserved x = true ->
+  gen_inter false ret ps = Diag DNoInteract.
 Proof.
-  intros ret ps q x HI HL R. unfold gen.
+  intros ret ps q x HI HL R. unfold gen_inter.
   assert (check_plain ps = true) as ->; [|reflexivity].
   unfold check_plain. apply existsb_exists. exists q. split; [exact HI|]. apply existsb_exists. exists x. auto.
 Qed.
 
-Theorem rule_reserved_from_pattern : forall ret ps q, In q ps -> (forall x, fst q <> PId x) -> reserved (flat_name (fst q)) = true ->
-  existsb is_ivar ps = true -> exists d, gen true ret ps = Diag d.
+Theorem rule_reserved_from_pattern_i : forall ret ps q, In q ps -> (forall x, fst q <> PId x) -> reserved (flat_name (fst q)) = true ->
+  existsb is_ivar ps = true -> exists d, gen_inter true ret ps = Diag d.
 Proof.
-  intros ret ps q HI NP R EX. apply not_ok_diag. intros o H.
+  intros ret ps q HI NP R EX. apply not_ok_diag_i. intros o H.
   destruct (gen_ok_inv _ _ _ H) as (kept & vs & ch & gs & S & _ & CK & _).
   assert (VS : vs <> []).
   { intro; subst. destruct (scan_nil _ _ _ S) as [_ F]. apply existsb_exists in EX. destruct EX as (z & Z1 & Z2).
@@ -345,18 +345,12 @@ Proof.
   unfold is_ivar. destruct (fst q) eqn:F; try reflexivity. exfalso; eapply NP; eauto.
 Qed.
 
-Theorem rule_mixed_identifier : forall ret ps x t, In (PId x, t) ps -> contains "inter_" x = true -> prefix "inter_" x = false ->
-  exists d, gen true ret ps = Diag d.
+Theorem rule_mixed_identifier_i : forall ret ps x t, In (PId x, t) ps -> contains "inter_" x = true -> prefix "inter_" x = false ->
+  exists d, gen_inter true ret ps = Diag d.
 Proof.
-  intros ret ps x t HI C P. apply not_ok_diag. intros o H.
+  intros ret ps x t HI C P. apply not_ok_diag_i. intros o H.
   destruct (gen_ok_inv _ _ _ H) as (kept & vs & ch & gs & S & _).
   destruct (scan_in _ _ _ _ S x t HI C) as [P' _]. congruence.
-Qed.
-
-(* the full-strength reading "an `inter_send` anywhere inside a pattern is refused" is false of the faithful model *)
-Lemma rule_inside_pattern_refuted : exists ps o, In "inter_send" (leaves (fst (hd (PRest, TOther "") ps))) /\ gen true false ps = Ok o.
-Proof.
-  exists [(PNode [PId "inter_send"; PId "b"], TOther "(oneshot::Sender<u8>, u8)")]. eexists. split; [left; reflexivity|]. vm_compute. reflexivity.
 Qed.
 
 (* ---- T6: the declared end type is the type of the end the handle puts there ---- *)
@@ -381,24 +375,124 @@ Proof.
 Qed.
 
 (* full strength: every accepted method *)
-Theorem end_type_coherent : forall ret ps o, gen true ret ps = Ok o -> coherent ps o.
+Theorem end_type_coherent_i : forall ret ps o, gen_inter true ret ps = Ok o -> coherent ps o.
 Proof.
   intros ret ps o H k t D. pose proof (declared_end_in _ _ _ D) as HI.
-  destruct (end_returns_opposite _ _ _ H _ _ HI) as (_ & a & O & R & _ & PC & _).
+  destruct (end_returns_opposite_i _ _ _ H _ _ HI) as (_ & a & O & R & _ & PC & _).
   destruct (oneshot_get_type_inv _ _ _ O) as (txt & ->). exists txt, a. auto.
 Qed.
 
 (* rule: an end parameter whose type does not name the end it asks for (`inter_send: Vec<u8>`, `inter_recv: ..::Sender<u8>`) is refused *)
-Theorem rule_wrong_end_type : forall ret ps q, In q ps -> is_end_param q = true -> end_type_named q = false ->
-  exists d, gen true ret ps = Diag d.
+Theorem rule_wrong_end_type_i : forall ret ps q, In q ps -> is_end_param q = true -> end_type_named q = false ->
+  exists d, gen_inter true ret ps = Diag d.
 Proof.
-  intros ret ps [p t] HI E N. apply not_ok_diag. intros o H.
+  intros ret ps [p t] HI E N. apply not_ok_diag_i. intros o H.
   unfold is_end_param in E. simpl in E. destruct p as [x| |l]; try discriminate.
   assert (exists k, x = end_name k) as (k & ->).
   { unfold reserved in E. apply orb_true_iff in E. destruct E as [E|E]; apply String.eqb_eq in E; [exists ESend|exists ERecv]; exact E. }
-  destruct (end_returns_opposite _ _ _ H _ _ HI) as (_ & a & O & _).
+  destruct (end_returns_opposite_i _ _ _ H _ _ HI) as (_ & a & O & _).
   destruct (oneshot_get_type_inv _ _ _ O) as (txt & ->).
   unfold end_type_named, end_of in N. simpl in N. destruct k; simpl in N; discriminate.
+Qed.
+
+(* ================= the whole generator: naming checks first, then the interact rules ================= *)
+Lemma gen_ok : forall i r ps o, gen i r ps = Ok o -> gen_inter i r ps = Ok o /\ check_actor ps = false /\ flat_check ps [] = false.
+Proof. intros i r ps o H. unfold gen in H. destruct (check_actor ps); [discriminate|]. destruct (flat_check ps []); [discriminate|]. auto. Qed.
+Lemma gen_diag : forall i r ps, (exists d, gen_inter i r ps = Diag d) -> exists d, gen i r ps = Diag d.
+Proof. intros i r ps [d H]. unfold gen. destruct (check_actor ps); [eauto|]. destruct (flat_check ps []); eauto. Qed.
+
+Theorem live_params : forall ret ps o, gen true ret ps = Ok o -> lo_params o = flat_params (filter (fun q => negb (is_ivar q)) ps).
+Proof. intros ret ps o H. apply gen_ok in H. eapply live_params_i; apply H. Qed.
+Theorem ivar_is_prefixed : forall ret ps o, gen true ret ps = Ok o -> forall q, In q ps -> is_ivar q = is_end_param q || is_getter_param q.
+Proof. intros ret ps o H. apply gen_ok in H. eapply ivar_is_prefixed_i; apply H. Qed.
+Theorem variant_fields : forall interact ret ps o, gen interact ret ps = Ok o -> lo_fields o = flat_params ps.
+Proof. intros i ret ps o H. apply gen_ok in H. eapply variant_fields_i; apply H. Qed.
+Theorem end_returns_opposite : forall ret ps o, gen true ret ps = Ok o ->
+  forall k t, In (PId (end_name k), t) ps ->
+    ret = false /\ exists a, oneshot_get_type t (end_type_name k) = Some a /\
+      lo_ret o = Some (opp k, a) /\ lo_tail o = Some (opp k) /\ pre_chans (lo_pre o) = [Some a] /\
+      In (end_name k, t) (lo_fields o) /\ ~ In (end_name k) (map fst (lo_params o)).
+Proof. intros ret ps o H. apply gen_ok in H. eapply end_returns_opposite_i; apply H. Qed.
+Theorem no_end_no_change : forall ret ps o, gen true ret ps = Ok o ->
+  (forall q, In q ps -> is_end_param q = false) -> lo_ret o = None /\ lo_tail o = None /\ pre_chans (lo_pre o) = (if ret then [None] else []).
+Proof. intros ret ps o H. apply gen_ok in H. eapply no_end_no_change_i; apply H. Qed.
+Theorem getters_read : forall ret ps o, gen true ret ps = Ok o -> pre_gets (lo_pre o) = getters_of ps.
+Proof. intros ret ps o H. apply gen_ok in H. eapply getters_read_i; apply H. Qed.
+Theorem end_type_coherent : forall ret ps o, gen true ret ps = Ok o -> coherent ps o.
+Proof. intros ret ps o H. apply gen_ok in H. eapply end_type_coherent_i; apply H. Qed.
+
+Theorem rule_both_ends : forall ret ps, 2 <= List.length (filter is_end_param ps) -> exists d, gen true ret ps = Diag d.
+Proof. intros. apply gen_diag. apply rule_both_ends_i; assumption. Qed.
+Theorem rule_end_in_returning_method : forall ps, existsb is_end_param ps = true -> exists d, gen true true ps = Diag d.
+Proof. intros. apply gen_diag. apply rule_end_in_returning_method_i; assumption. Qed.
+Theorem rule_without_interact : forall ret ps q x, In q ps -> In x (leaves (fst q)) -> reserved x = true -> exists d, gen false ret ps = Diag d.
+Proof. intros. apply gen_diag. eexists. eapply rule_without_interact_i; eauto. Qed.
+Theorem rule_mixed_identifier : forall ret ps x t, In (PId x, t) ps -> contains "inter_" x = true -> prefix "inter_" x = false ->
+  exists d, gen true ret ps = Diag d.
+Proof. intros. apply gen_diag. eapply rule_mixed_identifier_i; eauto. Qed.
+Theorem rule_wrong_end_type : forall ret ps q, In q ps -> is_end_param q = true -> end_type_named q = false -> exists d, gen true ret ps = Diag d.
+Proof. intros. apply gen_diag. eapply rule_wrong_end_type_i; eauto. Qed.
+
+(* ---- naming rules (check_inter_actor, check_flat_ident) ---- *)
+Definition fname (q : param) : string := flat_name (fst q).
+
+Lemma mem_In : forall x l, mem x l = true <-> In x l.
+Proof.
+  intros x l. unfold mem. rewrite existsb_exists. split.
+  - intros (y & A & B). apply String.eqb_eq in B. subst; exact A.
+  - intro A. exists x. split; [exact A|apply String.eqb_refl].
+Qed.
+
+Lemma flat_check_ok : forall ps seen, flat_check ps seen = false ->
+  NoDup (map fname ps) /\ (forall x, In x (map fname ps) -> ~ In x seen) /\
+  (forall q, In q ps -> composite (fst q) = true -> model_reserved (fname q) = false).
+Proof.
+  induction ps as [|q ps IH]; intros seen H; simpl in H.
+  - repeat split; [constructor|intros x []|intros q []].
+  - destruct (mem (flat_name (fst q)) seen) eqn:M; [discriminate|].
+    destruct (composite (fst q) && model_reserved (flat_name (fst q))) eqn:C; [discriminate|].
+    destruct (IH _ H) as (ND & DJ & RS). simpl. repeat split.
+    + constructor; [|exact ND]. intro HI. apply (DJ _ HI). left; reflexivity.
+    + intros x [<-|HI] HS.
+      * apply mem_In in HS. unfold fname in HS. congruence.
+      * apply (DJ _ HI). right; exact HS.
+    + intros q' [<-|HI] CP; [|apply RS; assumption]. rewrite CP in C. exact C.
+Qed.
+
+(* two parameters that flatten to the same identifier are refused *)
+Theorem rule_duplicate_flat_names : forall interact ret ps, ~ NoDup (map fname ps) -> exists d, gen interact ret ps = Diag d.
+Proof.
+  intros i r ps ND. apply not_ok_diag_i. intros o H. apply gen_ok in H. destruct H as (_ & _ & F).
+  apply flat_check_ok in F. apply ND. apply F.
+Qed.
+
+(* a composite pattern that flattens to a name the model binds itself (`(inter, send)`, `(inter_recv,)`, `(inter, actor)`) is refused,
+   with or without `interact`, whatever the other parameters *)
+Theorem rule_reserved_from_pattern : forall interact ret ps q, In q ps -> composite (fst q) = true -> model_reserved (fname q) = true ->
+  exists d, gen interact ret ps = Diag d.
+Proof.
+  intros i r ps q HI CP R. apply not_ok_diag_i. intros o H. apply gen_ok in H. destruct H as (_ & _ & F).
+  apply flat_check_ok in F. destruct F as (_ & _ & RS). rewrite (RS q HI CP) in R. discriminate.
+Qed.
+
+(* `inter_actor` anywhere in a pattern is refused *)
+Theorem rule_inter_actor : forall interact ret ps q, In q ps -> In "inter_actor" (leaves (fst q)) -> gen interact ret ps = Diag DInterActor.
+Proof.
+  intros i r ps q HI HL. unfold gen. assert (check_actor ps = true) as ->; [|reflexivity].
+  unfold check_actor. apply existsb_exists. exists q. split; [exact HI|]. apply existsb_exists. exists "inter_actor". split; [exact HL|reflexivity].
+Qed.
+
+(* accepted: the message fields (and so the handle parameters) carry pairwise distinct names *)
+Theorem field_names_distinct : forall interact ret ps o, gen interact ret ps = Ok o -> NoDup (map fst (lo_fields o)).
+Proof.
+  intros i r ps o H. pose proof (variant_fields _ _ _ _ H) as F. apply gen_ok in H. destruct H as (_ & _ & FC).
+  apply flat_check_ok in FC. destruct FC as (ND & _). rewrite F. unfold flat_params. rewrite map_map. exact ND.
+Qed.
+
+(* the full-strength reading "an `inter_send` anywhere inside a pattern is refused" is false of the faithful model *)
+Lemma rule_inside_pattern_refuted : exists ps o, In "inter_send" (leaves (fst (hd (PRest, TOther "") ps))) /\ gen true false ps = Ok o.
+Proof.
+  exists [(PNode [PId "inter_send"; PId "b"], TOther "(oneshot::Sender<u8>, u8)")]. eexists. split; [left; reflexivity|]. vm_compute. reflexivity.
 Qed.
 
 (* hypotheses are satisfiable: a method with an ordinary, a pattern, a getter and an end parameter *)
@@ -413,6 +507,12 @@ Example ex_wrong : is_end_param (PId "inter_send", TPath "Vec<u8>" "Vec" (ATy "u
   /\ end_type_named (PId "inter_send", TPath "Vec<u8>" "Vec" (ATy "u8")) = false
   /\ gen true false [(PId "inter_send", TPath "Vec<u8>" "Vec" (ATy "u8"))] = Diag DEndType
   /\ gen true false [(PId "inter_recv", TPath "oneshot::Sender<u8>" "Sender" (ATy "u8"))] = Diag DEndType.
+Proof. vm_compute. repeat split. Qed.
+Example ex_naming : gen true false [(PNode [PId "inter"; PId "send"], TOther "(u8,u8)"); (PId "inter_name", TPath "String" "String" ANone)] = Diag DFlatName
+  /\ gen true false [(PNode [PId "inter"; PId "count"], TOther "(u8,u8)"); (PId "inter_count", TPath "usize" "usize" ANone)] = Diag DFlatName
+  /\ gen true false [(PId "inter_recv", TPath "R<u8>" "Receiver" (ATy "u8")); (PId "inter_recv", TPath "R<u8>" "Receiver" (ATy "u8"))] = Diag DFlatName
+  /\ gen true false [(PId "inter_send", TPath "S<u8>" "Sender" (ATy "u8")); (PId "inter_recv", TPath "R<u8>" "Receiver" (ATy "u8"))] = Diag DBothEnds
+  /\ gen false true [(PId "inter_actor", TPath "u8" "u8" ANone)] = Diag DInterActor.
 Proof. vm_compute. repeat split. Qed.
 Example ex_both : 2 <= List.length (filter is_end_param
   [(PId "inter_send", TPath "S<u8>" "S" (ATy "u8")); (PId "inter_recv", TPath "R<u8>" "R" (ATy "u8"))]).
